@@ -155,7 +155,29 @@ def extract_fn(scratch, kv, lines, report):
             raise SystemExit("unknown directive line: " + ln)
     dropped = []
     body = _strip_logging(body, dropped)
-    # drop #[cfg(feature=..)] attribute-guarded statements? not needed so far: refuse instead
+    # `#[cfg(feature = "..")] <statement>;` : the workspace's default feature set is empty (sentinel-core/Cargo.toml:
+    # default = []), which is the build the test suite and the checks use, so such a statement is not part of the code
+    # that runs; it is removed and recorded. Any other cfg inside a body is refused.
+    while True:
+        m = re.search(r'#\[cfg\(feature\s*=\s*"[^"]*"\)\]\s*', body)
+        if not m:
+            break
+        depth = 0
+        end = None
+        for i, c in rsrc.scan(body, m.end()):
+            if c in "([{":
+                depth += 1
+            elif c in ")]}":
+                depth -= 1
+                if depth < 0:
+                    break
+            elif c == ";" and depth == 0:
+                end = i + 1
+                break
+        if end is None:
+            raise Undecided("extract: cfg(feature)-guarded item without a terminating `;` in %s::%s" % (rel, kv["fn"]))
+        dropped.append(" ".join(body[m.start():end].split()))
+        body = body[:m.start()] + body[end:]
     if "#[cfg(" in body:
         raise Undecided("extract: cfg-guarded code inside %s::%s is outside the extractable subset" % (rel, kv["fn"]))
     for a, b in substs:
